@@ -743,7 +743,7 @@ class Gen:
             return Member('enum', enum=self.gen_enum())
         if k == 'dunder':
             nm = rng.choice(DUNDERS)
-            args = self.gen_args(tps, n=1) if nm == 'contains' else []
+            args = self.gen_args(() if self.cfg.c02_safe else tps, n=1) if nm == 'contains' else []
             for a in args:
                 a.default = None
             return Member('dunder', name=nm, args=args)
@@ -790,6 +790,9 @@ class Gen:
             parent = self.gen_ty(depth=2, tparams=tuple(ctp), quals=False)
             if parent.params is None:
                 parent = Ty(parent.ns, parent.name if ' ' not in parent.name else "Base", None, False, '', False)
+                if self.cfg.c02_safe and (parent.name in ctp or (parent.ns and parent.ns[0] in ctp) or parent.name == "This"
+                                          or "This" in parent.ns):
+                    parent = Ty([], "Base", None, False, '', False)   # a plain base is never instantiated (known finding C02-9)
         members = [self.gen_member(name, ctp) for _ in range(rng.randint(0, self.cfg.max_members))]
         return Class(tmpl, rng.random() < self.cfg.p_virtual, name, parent, members)
 
